@@ -21,8 +21,6 @@ Definition pdb_allowed : list row := [
   ("error/context.rs", "display", "index", 1);
   (* position: first line of a non-empty text *)
   ("error/context.rs", "position", "unwrap", 1);
-  (* range: only built by the mmCIF lexer, from two positions of the same text *)
-  ("error/context.rs", "range", "index", 1);
   (* chars[78], chars[79]: under chars.len() >= 80; to_digit after is_ascii_digit, u32 -> isize *)
   ("read/pdb/lexer.rs", "lex_atom_basics", "index", 7);
   ("read/pdb/lexer.rs", "lex_atom_basics", "unwrap", 2);
@@ -50,6 +48,72 @@ Definition pdb_allowed : list row := [
   ("structs/symmetry.rs", "transformations", "unwrap", 1);
   ("structs/symmetry.rs", "transformations_absolute", "unwrap", 1);
   ("structs/symmetry.rs", "z", "unwrap", 1);
+  (* conformer(index) of an index found by enumerating the same conformers *)
+  ("validate.rs", "reshuffle_conformers", "unwrap", 1);
+  (* model(0) under model_count() > 1; atom(index) under index < atom_count() of two models with equal counts *)
+  ("validate.rs", "validate_models", "unwrap", 5)
+].
+
+(* ---------- the mmCIF reader and what it calls ---------- *)
+Definition cif_files : list string :=
+  ["read/mmcif/lexer.rs"; "read/mmcif/parser.rs"; "error/context.rs"; "validate.rs"; "structs/symmetry.rs"; "reference_tables.rs";
+   "structs/unit_cell.rs"].
+Definition cif_allowed : list row := [
+  (* display: lines[0] of a Range context; Context::range builds it from start.text.lines().take(k), k >= 1, of a text in which
+     a later position exists, hence a non-empty text *)
+  ("error/context.rs", "display", "index", 1);
+  (* position: first line of a non-empty text *)
+  ("error/context.rs", "position", "unwrap", 1);
+  (* text[pat.len_utf8()..bytes], text[bytes + c.len_utf8()..], text[bytes + 1..] ('\n' / '\r' is one byte), text[bytes..]:
+     offsets are sums of len_utf8 of the characters walked over from the start of the same text *)
+  ("read/mmcif/lexer.rs", "parse_enclosed", "index", 4);
+  (* text[..end], text[end..]: end is the byte offset returned by str::find, or the length *)
+  ("read/mmcif/lexer.rs", "parse_identifier", "index", 2);
+  (* text[1..bytes], text[bytes + 1..] at the closing ';' (one byte), text[bytes..]: the leading ';' is one byte and the offset
+     is advanced by len_utf8 of every character, by 1 for '\n' / '\r' *)
+  ("read/mmcif/lexer.rs", "parse_multiline_string", "index", 3);
+  (* text[..number_end]: a count of ASCII characters (sign, digits, point, exponent) taken from the start of the text *)
+  ("read/mmcif/lexer.rs", "parse_numeric", "index", 1);
+  (* chars().next() of a text its callers know to be non-empty (it starts with '.' or an ordinary character);
+     chars().nth(n) under text.len() > n where the first n characters are ASCII (5 times) *)
+  ("read/mmcif/lexer.rs", "parse_numeric", "unwrap", 6);
+  (* text[1..] after starts_with('.') / starts_with('?') *)
+  ("read/mmcif/lexer.rs", "parse_value", "index", 2);
+  (* chars().next() after the is_empty test *)
+  ("read/mmcif/lexer.rs", "parse_value", "unwrap", 1);
+  (* text[bytes..] twice: the offset adds len_utf8 of every character walked over and 1 or 2 for the line end *)
+  ("read/mmcif/lexer.rs", "skip_to_eol", "index", 2);
+  (* text[pattern.len()..]: the pattern is ASCII and the first pattern.len() characters matched it *)
+  ("read/mmcif/lexer.rs", "start_with", "index", 1);
+  (* text[n..]: n counts the ASCII white space characters walked over *)
+  ("read/mmcif/lexer.rs", "trim_whitespace", "index", 2);
+  (* row[x]: x is a position in the header and every row has as many values as the header (C06_rows_match_header);
+     aniso_temp[i][j] on a 3 x 3 array with literal indices (18 times); values[k] inside the parse_column macro (not counted
+     by the inventory, macro definitions are opaque to it): k < 27 = the number of columns of the table *)
+  ("read/mmcif/parser.rs", "parse_atoms", "index", 19);
+  (* positions_ holds no Err after the early return; nine aniso unwraps under all(Option::is_some); next_back() right after add_model *)
+  ("read/mmcif/parser.rs", "parse_atoms", "unwrap", 11);
+  (* matrix_mut()[r][c], [r][3]: r, c < 3 by the filter in get_index (C06_matrix_index_in_range) *)
+  ("read/mmcif/parser.rs", "parse_matrix", "index", 4);
+  (* the MtriX with the id stored in mtrix_id was pushed when that id was stored *)
+  ("read/mmcif/parser.rs", "parse_mmcif_with_options", "expect", 1);
+  (* single.name[..]: the full range *)
+  ("read/mmcif/parser.rs", "parse_mmcif_with_options", "index", 1);
+  (* scale / origx as_mut() right after they were set when absent *)
+  ("read/mmcif/parser.rs", "parse_mmcif_with_options", "unwrap", 2);
+  (* these accessors are not used while reading; the index was validated by from_index / new *)
+  ("structs/symmetry.rs", "hall_symbol", "expect", 1);
+  ("structs/symmetry.rs", "herman_mauguin_symbol", "expect", 1);
+  ("structs/symmetry.rs", "transformations", "unwrap", 1);
+  ("structs/symmetry.rs", "transformations_absolute", "unwrap", 1);
+  ("structs/symmetry.rs", "z", "unwrap", 1);
+  (* the setters are only called with a value accepted by get_cell_value: finite, an angle within [0, 360) (C06_cell_value_in_range) *)
+  ("structs/unit_cell.rs", "set_a", "assert", 1);
+  ("structs/unit_cell.rs", "set_alpha", "assert", 2);
+  ("structs/unit_cell.rs", "set_b", "assert", 1);
+  ("structs/unit_cell.rs", "set_beta", "assert", 2);
+  ("structs/unit_cell.rs", "set_c", "assert", 1);
+  ("structs/unit_cell.rs", "set_gamma", "assert", 2);
   (* conformer(index) of an index found by enumerating the same conformers *)
   ("validate.rs", "reshuffle_conformers", "unwrap", 1);
   (* model(0) under model_count() > 1; atom(index) under index < atom_count() of two models with equal counts *)
